@@ -21,6 +21,14 @@ into curr (in memory for every case; on a real directory with os.rmdir/os.mkdir 
 where ``annotate`` is checked too); ``get(p)`` is the listed node with path p, else None, and
 its status is "unchanged" exactly where the two snapshots agree (absent paths included).
 
+``annotate`` (modelled as the code is, including its ``{}`` for an empty diff, which the docstring
+does not promise -- outside the property text, kept as a note): compared item by item with the
+model for the directory as curr and as prev on every case (directory listing stubbed from the
+tree) and on real materialised directories for a sample; code-only: keys distinct, nodes first in
+nodes() order, every existing path a key, values equal get(), unchanged tail sorted.
+prev_type/curr_type: compared with the model and, code-only, with the kinds of the old/new entry.
+
+Theorems also include C18_annotate_covers, C18_annotate_order, C18_node_types.
 Theorems (coq/Properties/C18.v, all closed under the global context): C18_compare_none_iff,
 C18_reported_iff (sound + complete listing, status/prev/curr, no duplicates), C18_order_safe
 (parent listed; removed before / added after it, as list positions), C18_get_agrees,
@@ -217,6 +225,10 @@ def _type_str(t) -> str:
     return "n" if t is None else str(t.value)
 
 
+def _kind(t: Tree) -> str:
+    return "n" if t is None else "d" if isinstance(t, dict) else "s" if t.startswith("symlink:") else "f"
+
+
 def _parts(p) -> List[str]:
     return list(p.parts)
 
@@ -310,6 +322,12 @@ def oracle(prev: Tree, curr: Tree, queries) -> Tuple[Any, List[str]]:
             problems.append(f"path {name}: status {n.status().value}, expected {want}")
         if n.prev != sa or n.curr != sb:
             problems.append(f"path {name}: prev/curr are not the old/new entries")
+        # C18_node_types: the types are the kinds of the old/new entry; none iff added/removed
+        if _type_str(n.prev_type) != _kind(sa) or _type_str(n.curr_type) != _kind(sb):
+            problems.append(f"path {name}: prev_type/curr_type {_type_str(n.prev_type)}/{_type_str(n.curr_type)}"
+                            f" are not the kinds of the old/new entries")
+        elif (n.prev_type is None) != (want == "+") or (n.curr_type is None) != (want == "-"):
+            problems.append(f"path {name}: prev_type/curr_type do not reflect status {want}")
     # (3) order safety: as positions ...
     pos = {tuple(n.path.parts): i for i, n in enumerate(nodes)}
     for n in nodes:
@@ -358,8 +376,48 @@ def oracle(prev: Tree, curr: Tree, queries) -> Tuple[Any, List[str]]:
             for k, v in bucket.items():
                 if k != v.path or k.parent != n.path:
                     problems.append(f"bucket key {k} does not match child path {v.path}")
-    obs = ["T" if empty else "F", [node_sx(n) for n in nodes], gets, script]
+    # (5) annotate: a third view of the listing.  In memory (dir_paths stubbed with the paths of
+    # the given tree) for the directory as curr and as prev; the real rglob is exercised in fs_case.
+    anns = []
+    for t in (curr, prev):
+        items = _annotate_mem(dd, t)
+        anns.append([[list(k), str(dd.status(v).value)] for k, v in items])
+        if empty:
+            continue        # the code returns {} here (docstring promises more): observation only
+        keys = [k for k, _v in items]
+        if len(set(keys)) != len(keys):
+            problems.append("annotate(): a path is a key twice")
+        if [v for _k, v in items if v is not None] != list(nodes) or \
+                any(v is not None for _k, v in items[len(nodes):]):
+            problems.append("annotate(): the diff nodes are not listed first, in nodes() order")
+        if not (set(all_paths(t)) | {()}) <= set(keys):
+            problems.append("annotate(): an existing path of the directory is not a key")
+        if not set(keys) <= set(all_paths(t)) | set(listed) | {()}:
+            problems.append("annotate(): a key is neither a listed nor an existing path")
+        for k, v in items:
+            g = dd.get(Path(*k) if k else Path(""))
+            if v is not g and not (v is not None and g is not None and v == g):
+                problems.append(f"annotate(): value at {'/'.join(k) or '.'} differs from get()")
+                break
+        tail = keys[len(nodes):]
+        if tail != sorted(tail):
+            problems.append("annotate(): unchanged paths are not in sorted order")
+    obs = ["T" if empty else "F", [node_sx(n) for n in nodes], gets, script] + anns
     return obs, problems
+
+
+def _annotate_mem(dd, t: Tree):
+    """DirDiff.annotate with the directory listing taken from the tree t instead of the disk."""
+    from pathlib import Path
+    import metador_core.util.diff as dm
+    base = Path("BASE")
+    saved = dm.dir_paths
+    dm.dir_paths = lambda _b: iter([Path(*p) for p in all_paths(t) if p])
+    try:
+        ann = dd.annotate(base)
+    finally:
+        dm.dir_paths = saved
+    return [(tuple(k.relative_to(base).parts), v) for k, v in ann.items()]
 
 
 def _guard_case(case) -> Tuple[str, Any, List[str]]:
@@ -387,7 +445,7 @@ def w_chunk(chunk):
         if not agree:
             field = "exception"
             if st == "ok":
-                names = ["is_empty", "nodes", "get", "script"]
+                names = ["is_empty", "nodes", "get", "script", "annotate(curr)", "annotate(prev)"]
                 field = next((nm for nm, x, y in zip(names, got, want) if x != y), "?")
         counts = {"+": 0, "-": 0, "~": 0}
         for n in want[1]:
@@ -432,7 +490,7 @@ def fs_case(case) -> List[str]:
     check annotate() on the resulting directory."""
     from pathlib import Path
     from metador_core.util.diff import DirDiff
-    prev, curr = case
+    prev, curr, want_ann = case
     problems: List[str] = []
     with vlib.workdir("c18") as wd:
         base = os.path.join(str(wd), "data")
@@ -465,6 +523,10 @@ def fs_case(case) -> List[str]:
             return problems
         # annotate on the directory that now equals curr
         ann = dd.annotate(Path(base))
+        if want_ann is not None:
+            got_ann = [[list(k.relative_to(base).parts), str(dd.status(v).value)] for k, v in ann.items()]
+            if got_ann != want_ann:
+                problems.append("MODEL annotate() on the real directory differs from the model's annotate")
         keys = list(ann.keys())
         want_head = [Path(base) / str(n.path) for n in nodes]
         if keys[:len(nodes)] != want_head or [ann[k] for k in keys[:len(nodes)]] != list(nodes):
@@ -649,18 +711,21 @@ def run(ctx: vlib.Ctx):
     fs_pairs = [(a, b) for (a, b) in pairs[n_exh:] if isinstance(a, dict) and isinstance(b, dict)]
     step = max(1, len(pairs[:n_exh]) // ctx.budget(300, 3000))
     fs_pairs = pairs[:n_exh:step] + fs_pairs[:ctx.budget(300, 4000)]
-    fres = vlib.pmap(w_fs, fs_pairs, chunksize=16)
+    fs_model = vlib.run_model("c18", [[ent_sx(a), ent_sx(b), []] for a, b in fs_pairs])
+    fres = vlib.pmap(w_fs, [(a, b, m[4]) for (a, b), m in zip(fs_pairs, fs_model)], chunksize=16)
     doc_notes = set()
     for (a, b), problems in zip(fs_pairs, fres):
         doc_notes.update(p for p in problems if p.startswith("NOTE "))
-        problems = [p for p in problems if not p.startswith("NOTE ")]
+        if any(p.startswith("MODEL ") for p in problems) and len(disagreements) < 20:
+            disagreements.append({"kind": "fs", "prev": a, "curr": b, "field": "annotate(real directory)"})
+        problems = [p for p in problems if not p.startswith(("NOTE ", "MODEL "))]
         if problems:
             key = "fs:" + _law_class(problems[0])
             if key not in reported:
                 reported.add(key)
 
                 def fails(x, y):
-                    return any(not p.startswith("NOTE ") for p in w_fs((x, y)))
+                    return any(not p.startswith(("NOTE ", "MODEL ")) for p in w_fs((x, y, None)))
                 sa, sb = shrink_pair(a, b, fails=fails, budget=120)
                 ctx.violation(
                     f"DirDiff on a real directory: {problems[0]}",
@@ -717,7 +782,7 @@ def run(ctx: vlib.Ctx):
 
 def _law_class(problem: str) -> str:
     """Coarse class of an oracle message, so that one violation is reported per law."""
-    for key in ("is_empty", "listed twice", "unchanged path", "is not listed", "status", "prev/curr",
+    for key in ("is_empty", "listed twice", "unchanged path", "is not listed", "prev_type", "status", "prev/curr",
                 "parent of listed", "listed after its parent", "listed before its parent", "refused",
                 "does not produce", "get(", "bucket key", "annotate", "os-level", "raised"):
         if key in problem:
@@ -735,7 +800,7 @@ def replay(rep) -> int:
         print("\n".join(problems) if problems else "no longer failing")
         return 1 if problems else 0
     if kind == "fs":
-        problems = [p for p in w_fs((rep["prev"], rep["curr"])) if not p.startswith("NOTE ")]
+        problems = [p for p in w_fs((rep["prev"], rep["curr"], None)) if not p.startswith(("NOTE ", "MODEL "))]
         print("\n".join(problems) if problems else "no longer failing")
         return 1 if problems else 0
     print("replay names a proof obligation or correspondence; re-run the check itself")
